@@ -80,7 +80,7 @@ pub fn phases(prop: &str, tier: Tier) -> Vec<Phase> {
         ],
         "C13" => vec![
             Phase { name: "rfault-large", units: 8, seeded: false },
-            Phase { name: "rfault", units: if q { 320 } else { 40_000 }, seeded: true },
+            Phase { name: "rfault", units: if q { 200 } else { 40_000 }, seeded: true },
         ],
         _ => vec![],
     }
